@@ -105,6 +105,19 @@ func specCLArith() {
 	tie(&xspec{mod: mod, dir: clMath, fn: "TicksToSqrtPrice", lean: "TicksToSqrtPrice", externs: []xextern{tickToSqrtPrice},
 		params: []xparam{{"$1", "lowerTick", tyI64}, {"$2", "upperTick", tyI64}},
 		doc:    "math/tick.go `TicksToSqrtPrice`: (sqrt price of the lower tick, of the upper tick); the UPPER tick is converted first"})
+	tie(&xspec{mod: mod, dir: clMath, fn: "TickToSqrtPrice", lean: "TickToSqrtPrice",
+		externs: []xextern{{key: "TickToPrice", name: "tickToPrice", args: []string{tyI64}, res: tyBig, fallible: true},
+			{key: "osmomath.MonotonicSqrtMut", name: "monotonicSqrt", args: []string{tyDec}, res: tyDec, fallible: true, fresh: true},
+			{key: "osmomath.MonotonicSqrtBigDec", name: "monotonicSqrtBigDec", args: []string{tyBig}, res: tyBig, fallible: true}},
+		params: []xparam{{"$1", "tickIndex", tyI64}},
+		doc:    "math/tick.go `TickToSqrtPrice`: 18-decimal square root on the launch range, 36-decimal below it (`tickToPrice`, the two monotonic square roots are C13/C14 functions)"})
+	tie(&xspec{mod: mod, dir: clMath, fn: "RoundDownTickToSpacing", lean: "RoundDownTickToSpacing",
+		params: []xparam{{"$1", "tickIndex", tyI64}, {"$2", "tickSpacing", tyI64}},
+		doc:    "math/tick.go `RoundDownTickToSpacing` (`I64.rem` = Go's truncating `%`, a zero spacing panics)"})
+	tie(&xspec{mod: mod, dir: clMath, fn: "SqrtPriceToTickRoundDownSpacing", lean: "SqrtPriceToTickRoundDownSpacing",
+		externs: []xextern{{key: "CalculateSqrtPriceToTick", name: "calculateSqrtPriceToTick", args: []string{tyBig}, res: tyI64, fallible: true}},
+		params:  []xparam{{"$1", "sqrtPrice", tyBig}, {"$2", "tickSpacing", tyI64}},
+		doc:     "math/tick.go `SqrtPriceToTickRoundDownSpacing`"})
 	curTick := xparam{"$0.CurrentTick", "currentTick", tyI64}
 	tie(&xspec{mod: mod, dir: clModel, fn: "Pool.IsCurrentTickInRange", lean: "IsCurrentTickInRange",
 		params: []xparam{curTick, {"$1", "lowerTick", tyI64}, {"$2", "upperTick", tyI64}},
@@ -152,6 +165,8 @@ func specCLOps() {
 	pinK(mod, clDir, // tick.go
 		"Keeper.initOrUpdateTick", "Keeper.crossTick", "Keeper.GetTickInfo", "Keeper.makeInitialTickInfo", "validateTickRangeIsValid",
 		"roundTickToCanonicalPriceTick")
+	pinK("CLTickOps", clMath, // math/tick.go: the table / search functions (C14)
+		"TickToPrice", "TickToAdditiveGeometricIndices", "CalculatePriceToTick", "CalculateSqrtPriceToTick", "PowTenInternal", "powTenBigDec")
 	pinK(mod, clDir, // lp.go, position.go
 		"Keeper.CreatePosition", "Keeper.WithdrawPosition", "Keeper.addToPosition", "Keeper.UpdatePosition", "Keeper.sendCoinsBetweenPoolAndUser",
 		"Keeper.initializeInitialPositionForPool", "Keeper.uninitializePool", "Keeper.initOrUpdatePosition", "Keeper.transferPositions",
